@@ -239,7 +239,7 @@ RouteFamily ==
        d \in {NoBlock} \cup { DomOpts(Blk(TRUE, f, t, ty, FALSE, {}, FALSE)) : f \in {"-", "ok"}, t \in ToV, ty \in TypeV },
        c \in {NoBlock} \cup { Blk(TRUE, f, t, ty, FALSE, {}, FALSE) : f \in FromV, t \in ToV, ty \in TypeV },
        xin \in XIn,
-       x \in {NoBlock} \cup { Blk(TRUE, f, t, ty, FALSE, {}, FALSE) : f \in FromV, t \in ToV, ty \in {"-", "rewrite"} } }
+       x \in {NoBlock} \cup { Blk(TRUE, f, t, ty, FALSE, {}, FALSE) : f \in FromV, t \in ToV, ty \in {"-", "rewrite", "bogus"} } }
 
 MiscDef == { Blk(TRUE, "ok", "ok", "-", TRUE, S, bs) :
                S \in { {"dom"}, {"skip", "dom"}, {}, {"skip"}, {"hdr", "grp"} }, bs \in BOOLEAN }
